@@ -227,6 +227,8 @@ def render(prog, order=None, group=None, mode="nested", depth=1, name=None, capt
     for i in range(1, n + 1):
         if nodes[i - 1]["kind"] == "fb" and nodes[i - 1]["bind"]:
             lines.append("bind %d %s" % (i, rootref(nodes[i - 1]["bind"])))
+    for a, b in prog.get("rankdeps", []):       # explicit rank dependencies (flat presentations only)
+        lines.append("rankdep %d %d" % (a, b))
     lines.append("endgraph")
     lines.append("run")
     return "\n".join(lines)
@@ -298,7 +300,8 @@ def to_json_programs(progs):
     """strip presentation-only fields for TLC"""
     out = []
     for p in progs:
-        q = {"id": p["id"], "start": p["start"], "end": p["end"], "nodes": [], "capt": [list(x) for x in p.get("capt", [])]}
+        q = {"id": p["id"], "start": p["start"], "end": p["end"], "nodes": [], "capt": [list(x) for x in p.get("capt", [])],
+             "rankdeps": [list(x) for x in p.get("rankdeps", [])]}
         for n in p["nodes"]:
             q["nodes"].append({k: n[k] for k in ("kind", "k", "cnt", "ins", "script", "bind", "init", "cap")})
         out.append(q)
